@@ -91,6 +91,20 @@ class ModelError(Exception):
     pass
 
 
+class _AmbiguousView:
+    """Set-like view keyed by handle name but stored per structure, so that aliases share the mark."""
+
+    def __init__(self, model):
+        self.m = model
+
+    def add(self, name):
+        if name in self.m.roots:
+            self.m._ambiguous_roots.add(id(self.m.roots[name]))
+
+    def __contains__(self, name):
+        return name in self.m.roots and id(self.m.roots[name]) in self.m._ambiguous_roots
+
+
 class Model:
     def __init__(self, boot_durations):
         self.boot = dict(boot_durations)
@@ -102,7 +116,8 @@ class Model:
         self.hkind = {}
         self._sid = 0
         self.notes = []        # placement verdicts etc.
-        self.ambiguous = set() # handle names whose structure can no longer be followed exactly
+        self._ambiguous_roots = set()   # structures whose relation structure can no longer be followed exactly
+        self.ambiguous = _AmbiguousView(self)
 
     # ------------------------------------------------------------------ config
     def cfg_global(self, key):
@@ -211,6 +226,21 @@ class Model:
         need = max(dp[id(m)][0] for m in sharing)
         return sharing, [m for m in sharing if dp[id(m)][1] >= need]
 
+    def node_signature(self, m):
+        if m.rel is None:
+            return ["-", None]
+        if m.rel[0] == "MULTI":
+            return ["MULTI", None]
+        return [m.rel[0], m.rel[1].label()]
+
+    def narrow(self, cands, impl):
+        """Among unbound members with the same label keep those related the way the implementation's object is."""
+        sig = impl.get("ref_sig")
+        if sig is None or len(cands) <= 1:
+            return cands
+        keep = [m for m in cands if self.node_signature(m) == sig]
+        return keep or cands
+
     def is_member(self, block, node):
         return any(m is node for m in block.members)
 
@@ -258,7 +288,7 @@ class Model:
                     if chosen is None and impl.get("ref_key") is not None:
                         # the implementation linked to an object the model has no binding for
                         # (a member born in a copy): resolve by label among the unbound members
-                        cands = [m for m in root.members if m.key is None and m.label() == impl.get("ref_label")]
+                        cands = self.narrow([m for m in root.members if m.key is None and m.label() == impl.get("ref_label")], impl)
                         cadm = [m for m in cands if any(m is a for a in adm)]
                         if len(cadm) == 1:
                             chosen = cadm[0]
@@ -310,7 +340,7 @@ class Model:
             else:
                 chosen = self.find_by_key(block, impl["ref_key"]) if impl.get("ref_key") is not None else None
                 if chosen is None and impl.get("ref_key") is not None:
-                    cands = [m for m in adm if m.key is None and m.label() == impl.get("ref_label")]
+                    cands = self.narrow([m for m in adm if m.key is None and m.label() == impl.get("ref_label")], impl)
                     if len(cands) >= 1:
                         chosen = cands[-1]
                         if len(cands) == 1:
@@ -409,7 +439,7 @@ class Model:
             return out
         chosen = self.find_by_key(root, impl.get("ref_key")) if impl.get("ref_key") is not None else None
         if chosen is None and impl.get("ref_key") is not None:
-            cands = [m for m in adm if m.key is None and m.label() == impl.get("ref_label")]
+            cands = self.narrow([m for m in adm if m.key is None and m.label() == impl.get("ref_label")], impl)
             if len(cands) >= 1:
                 chosen = cands[-1]
                 if len(cands) > 1:
